@@ -29,9 +29,9 @@ RE_TABLE = {p: (n, s) for p, n, s in REGEXES}
 BRE_TABLE = {'[\\x20-\\x7E]+': (False, ['a', 'xyz', 'A1 ']), '[\\x01-\\x0F]': (False, ['\x01', '\x0f']),
              '[\\x00-\\xFF]': (False, ['\x00', 'q', '\xff'])}
 # extra patterns only used as ignorables (never sampled as content)
-IGNORE_PATTERNS = [' +', '\\n+', '[ \\n]+', '#[^\\n]*', '~+', '_+']
+IGNORE_PATTERNS = [' +', '\\n+', '[ \\n]+', '#[^\\n]*', '~+', '_+', '~', '_']
 IGNORE_SAMPLES = {' +': [' ', '  '], '\\n+': ['\n'], '[ \\n]+': [' ', '\n', ' \n '], '#[^\\n]*': ['#c'],
-                  '~+': ['~'], '_+': ['_']}
+                  '~+': ['~'], '_+': ['_'], '~': ['~', '~~'], '_': ['_', '__', '___']}
 
 # none of these looks at class names (the flattened model renames classes per level)
 APPLY_FUNCS = ['lambda v: [v]', 'lambda v: (v, v)', 'lambda v: None', 'lambda v: {"k": v}', 'lambda v: v',
@@ -641,10 +641,14 @@ def gen_child(rng, parent_gen, hook_p=0.4, ignore=None, allow_super=True, force=
     start_ok = eff is not None
     k = min(len(cands), rng.choice([0, 1, 1, 2, 3]))
     overridden = rng.sample(cands, k) if k else []
+    # now and then a derived grammar that consists of ignore declarations ONLY (it inherits the start rule and everything else)
+    ignore_only = ignore is not None and not force and not force_items and not force_body and rng.random() < 0.15
+    if ignore_only:
+        overridden = []
     for n in force:
         if n in g.table and n not in overridden:
             overridden.append(n)
-    if start_ok and rng.random() < 0.2:
+    if start_ok and not ignore_only and rng.random() < 0.2:
         nm = eff
         if respell_start_p and rng.random() < respell_start_p:
             # the derived grammar spells its start rule differently (Start / START / start): by name it is
@@ -655,7 +659,7 @@ def gen_child(rng, parent_gen, hook_p=0.4, ignore=None, allow_super=True, force=
                 g.table[nm] = dict(g.table[eff])
                 g.start_name = nm
         overridden.append(nm)
-    n_new = rng.choice([0, 1, 1, 2])
+    n_new = 0 if ignore_only else rng.choice([0, 1, 1, 2])
     if start_ok and not force and ignore is None and g.start_name == 'start' == eff and rng.random() < 0.06:
         # a derived grammar that consists of a new start expression only
         overridden, n_new = ['start'], 0
@@ -706,7 +710,7 @@ def gen_child(rng, parent_gen, hook_p=0.4, ignore=None, allow_super=True, force=
             it = rng.choice(tgt)
             echo = rng.choice(plc)
             it['expr'] = ['alt', [echo[0], echo[1], list(echo[2])], it['expr']] if rng.random() < 0.5 else ['alt', it['expr'], [echo[0], echo[1], list(echo[2])]]
-    if not items:
+    if not items and not ignore_only:
         nm = 'N%d_x' % g.tagn
         items.append({'k': 'rule', 'name': nm, 'expr': g._terminal(True)})
         g.table[nm] = {'rank': 50.0, 'nullable': False, 'kind': 'rule'}
@@ -721,7 +725,10 @@ def gen_child(rng, parent_gen, hook_p=0.4, ignore=None, allow_super=True, force=
         if i['kind'] == 'ignore':
             used.add(i.get('pattern'))
     used |= set(getattr(parent_gen, 'anon_patterns', ()))
-    free = [p for p in ('~+', '_+', '#[^\\n]*') if p not in used] or ['~+']
+    # (patterns of different levels start with different characters, so that their order inside the skipper cannot matter)
+    used_chars = {p[0] for p in used if p}
+    fams = [f for f in (['~+', '~'], ['_+', '_'], ['#[^\\n]*']) if f[0][0] not in used_chars] or [['~+']]
+    free = [rng.choice(f) for f in fams]
     g.anon_patterns = list(getattr(parent_gen, 'anon_patterns', ()))
     if ignore == 'anon':
         items.append({'k': 'ignore', 'expr': ['re', free[0]]})
@@ -730,6 +737,10 @@ def gen_child(rng, parent_gen, hook_p=0.4, ignore=None, allow_super=True, force=
         nm = 'Sq%d' % g.tagn
         items.append({'k': 'rule', 'name': nm, 'ignore': True, 'expr': ['re', free[0]]})
         g.table[nm] = {'rank': 1e9, 'nullable': False, 'kind': 'ignore', 'pattern': free[0]}
+    if ignore is not None and len(free) > 1 and rng.random() < 0.3:
+        # a second ignore declaration at the same level (comments AND blanks)
+        items.append({'k': 'ignore', 'expr': ['re', free[1]]})
+        g.anon_patterns.append(free[1])
     # now and then: override a named ignore rule of an ancestor, with or without the modifier
     # (it stays the rule that the inherited ignore machinery refers to, late-bound)
     named_ig = sorted(n for n, i in parent_gen.table.items() if i['kind'] == 'ignore')
@@ -1204,6 +1215,8 @@ def join_tokens(rng, toks, gaps):
         out.append(t)
         if rng.random() < 0.6:
             out.append(rng.choice(gaps))
+            if rng.random() < 0.3:
+                out.append(rng.choice(gaps))      # two ignorable tokens in a row (a comment, then a line break)
     return ''.join(out)
 
 
